@@ -4,4 +4,5 @@ c_LeafSeq == <<"s1", "s2", "s3">>
 c_Modes == {"Replace", "And", "Or", "Xor", "AndNot"}
 D2 == TLCGet("level") <= 3
 D3 == TLCGet("level") <= 4
+D4 == TLCGet("level") <= 5
 ====
